@@ -523,39 +523,60 @@ impl Memfs {
         } else if dst_root.starts_with(src_root.path()) {
             return Err(format!("can't copy {} into itself {}", src_root.path().display(), dst_root.display()).as_str().into());
         }
-        for entry in self._entries(guard, src_root.path())?.follow(cp.follow) {
-            let src = entry?;
+        // Work list of (source, image) pairs. The traversal itself never follows links: when following
+        // a link is replaced by what it points to and a directory target becomes a new work item whose
+        // image is the link's own place in the destination.
+        let image = if copy_into { dst_root.mash(src_root.path().base()?) } else { dst_root.clone() };
+        let mut work = vec![(src_root.path_buf(), image, vec![src_root.path_buf()])];
+        while let Some((from, to, chain)) = work.pop() {
+            for entry in self._entries(guard, &from)? {
+                let src = entry?;
 
-            // Set destination path based on source path
-            let dst_path = if copy_into {
-                dst_root.mash(src.path().trim_prefix(src_root.path().dir()?))
-            } else {
-                dst_root.mash(src.path().trim_prefix(src_root.path()))
-            };
+                // Set destination path based on source path
+                let dst_path = to.mash(src.path().trim_prefix(&from));
 
-            // Nothing to do when an entry would be copied onto itself
-            if src.path() == dst_path {
-                continue;
-            }
-
-            // Recreate links if were not following them
-            if !cp.follow && src.is_symlink() {
-                // Copying into a directory might require creating it first
-                if !guard.contains_entry(&dst_path.dir()?) {
-                    let mode = match dir_mode {
-                        Some(x) => Some(x),
-                        None => Some(self._clone_entry(guard, src.path().dir()?)?.mode()),
-                    };
-                    self._mkdir_m(guard, &dst_path.dir()?, mode)?;
+                // Nothing to do when an entry would be copied onto itself
+                if src.path() == dst_path {
+                    continue;
                 }
-                self._symlink(guard, dst_path, src.alt())?;
-            } else {
-                // `follow`, i.e. pass through to target for links else get a fresh
-                // copy of the same entry which should be fast as we still have a lock
-                let src = self._clone_entry(guard, src.path())?;
 
-                // Create the directory using the given mode or src mode
-                if src.is_dir() {
+                // Recreate links if were not following them
+                if !cp.follow && src.is_symlink() {
+                    // Copying into a directory might require creating it first
+                    if !guard.contains_entry(&dst_path.dir()?) {
+                        let mode = match dir_mode {
+                            Some(x) => Some(x),
+                            None => Some(self._clone_entry(guard, src.path().dir()?)?.mode()),
+                        };
+                        self._mkdir_m(guard, &dst_path.dir()?, mode)?;
+                    }
+                    self._symlink(guard, dst_path, src.alt())?;
+                    continue;
+                }
+
+                // `follow`, i.e. pass through to the final target for links else get a fresh
+                // copy of the same entry which should be fast as we still have a lock
+                let via_link = src.is_symlink();
+                let mut src = self._clone_entry(guard, src.path())?;
+                let mut hops = 0;
+                while src.is_symlink() {
+                    hops += 1;
+                    if hops > 16 {
+                        return Err(PathError::link_looping(src.path()).into());
+                    }
+                    src = self._clone_entry(guard, src.alt())?;
+                }
+
+                if src.is_dir() && via_link {
+                    // Copy the directory the link points to in place of the link
+                    if chain.iter().any(|x| x == src.path()) || from.starts_with(src.path()) || dst_path.starts_with(src.path()) {
+                        return Err(PathError::link_looping(src.path()).into());
+                    }
+                    let mut chain = chain.clone();
+                    chain.push(src.path_buf());
+                    work.push((src.path_buf(), dst_path, chain));
+                } else if src.is_dir() {
+                    // Create the directory using the given mode or src mode
                     self._mkdir_m(guard, &dst_path, dir_mode.or(Some(src.mode())))?;
                 } else {
                     // Copying into a directory might require creating it first
@@ -584,10 +605,8 @@ impl Memfs {
                     }
 
                     // Copy the src file over as well
-                    if !src.is_symlink() {
-                        let dst_file = self._clone_file(guard, src.path())?;
-                        guard.insert_file(dst_path, dst_file);
-                    }
+                    let dst_file = self._clone_file(guard, src.path())?;
+                    guard.insert_file(dst_path, dst_file);
                 }
             }
         }
